@@ -80,13 +80,9 @@ def _run_case(ctx, case, op):
                 ctx.judge(False, case, mech=mech, expected=obs.show(want), got=repr(e),
                           nontrivial=bool(A))
                 return
-        if not isinstance(r, FmtStr):
-            ctx.judge(False, case, mech=mech, expected="FmtStr", got=repr(type(r)))
-            return
-        got = obs.cells(r)
-        ok = got == want and len(r) == len(want) and r.s == obs.text_of(want)
-        ctx.judge(ok, case, mech=mech, expected=obs.show(want), got=obs.show(got),
-                  nontrivial=bool(A))
+        problems, got = obs.result_problems(r, want)
+        ctx.judge(not problems, case, mech=mech, expected=obs.show(want),
+                  got=obs.show(got) if got is not None else None, detail=problems, nontrivial=bool(A))
         # the operand is unchanged
         if obs.cells(f) != A:
             ctx.judge(False, case, mech="C06:operand-changed", expected=obs.show(A),
@@ -104,10 +100,9 @@ def _run_case(ctx, case, op):
         except Exception as e:  # noqa
             ctx.judge(False, case, mech="C06:add", expected=obs.show(want), got=repr(e))
             return
-        got = obs.cells(r)
-        ok = got == want and len(r) == len(want) and r.s == obs.text_of(want)
-        ctx.judge(ok, case, mech="C06:add", expected=obs.show(want), got=obs.show(got),
-                  nontrivial=bool(want))
+        problems, got = obs.result_problems(r, want)
+        ctx.judge(not problems, case, mech="C06:add", expected=obs.show(want),
+                  got=obs.show(got) if got is not None else None, detail=problems, nontrivial=bool(want))
         for v, d in ((va, a), (vb, b)):
             if not isinstance(v, str) and obs.cells(v) != op_cells(d):
                 ctx.judge(False, case, mech="C06:operand-changed", expected=obs.show(op_cells(d)),
@@ -121,10 +116,9 @@ def _run_case(ctx, case, op):
         except Exception as e:  # noqa
             ctx.judge(False, case, mech="C06:mul", expected=obs.show(want), got=repr(e))
             return
-        got = obs.cells(r)
-        ok = got == want and len(r) == len(want) and r.s == obs.text_of(want)
-        ctx.judge(ok, case, mech="C06:mul", expected=obs.show(want), got=obs.show(got),
-                  nontrivial=bool(want))
+        problems, got = obs.result_problems(r, want)
+        ctx.judge(not problems, case, mech="C06:mul", expected=obs.show(want),
+                  got=obs.show(got) if got is not None else None, detail=problems, nontrivial=bool(want))
         if obs.cells(f) != A:
             ctx.judge(False, case, mech="C06:operand-changed", expected=obs.show(A), got=obs.show(obs.cells(f)))
     elif op == "join":
@@ -146,10 +140,9 @@ def _run_case(ctx, case, op):
         except Exception as e:  # noqa
             ctx.judge(False, case, mech="C06:join", expected=obs.show(want), got=repr(e))
             return
-        got = obs.cells(r)
-        ok = got == want and len(r) == len(want) and r.s == obs.text_of(want)
-        ctx.judge(ok, case, mech="C06:join", expected=obs.show(want), got=obs.show(got),
-                  nontrivial=bool(want))
+        problems, got = obs.result_problems(r, want)
+        ctx.judge(not problems, case, mech="C06:join", expected=obs.show(want),
+                  got=obs.show(got) if got is not None else None, detail=problems, nontrivial=bool(want))
         for v, d in [(vsep, sep)] + list(zip(vitems, items)):
             if not isinstance(v, str) and obs.cells(v) != op_cells(d):
                 ctx.judge(False, case, mech="C06:operand-changed", expected=obs.show(op_cells(d)),
